@@ -157,6 +157,15 @@ def case_div_layer(ctx, inp):
     if impl[0] == "ok":
         ctx.eq("RepartitionDivisions._layer", model[:3], [Sym("ok"), impl[1][0], impl[1][1]])
         ctx.branch("layer-force" if force else "layer")
+        # certificate of divisions_layer_sound, evaluated on the layer the REAL code built
+        if b == sorted(b) and len(set(b[:-1])) == len(b[:-1]):
+            ok = ctx.lean(Sym("div-layer-ok"), a, b, impl[1][0], impl[1][1])
+            if ok is not True:
+                ctx.fail("RepartitionDivisions._layer() does not pass the layer certificate (pieces used once and in "
+                         "order, slices tile the old partitions, pieces fit their new partition)",
+                         observed=[impl[1][0], impl[1][1]])
+            else:
+                ctx.branch("layer-certified")
         if a[-1] == a[-2]:
             ctx.branch("layer-old-single-last")
         if b[-1] == b[-2]:
@@ -224,7 +233,16 @@ def case_repartition(ctx, inp):
     ids = _ids(parts)
     flat = [v for p in ids for v in p]
     if flat != list(range(nrows)):
-        ctx.fail("repartition does not keep the rows in order", observed=ids, expected=list(range(nrows)))
+        sig = None
+        by_key_range = "divisions" in kw or ("npartitions" in kw and kw["npartitions"] > old)
+        if (divs is not None and by_key_range and any(list(k) != sorted(k) for k in keys)
+                and sorted(flat) == list(range(nrows)) and rdivs[0] is not None
+                and ctx.lean(Sym("repart-divs"), keys, divs, rdivs, bool(kw.get("force", False))) == [Sym("ok"), ids]):
+            # (the known symptom is exactly: nothing lost, rows regrouped as the key-range model predicts)
+            # boundary_slice regroups the rows of a partition by key range: Lean divisions_order_needs_sorted_partitions
+            sig = "repartition(divisions):partition-not-in-index-order:rows-regrouped-by-key-range"
+            ctx.branch("api-unsorted-partition-reordered")
+        ctx.fail("repartition does not keep the rows in order", sig=sig, observed=ids, expected=list(range(nrows)))
     if rn != len(parts):
         ctx.fail("npartitions differs from the number of partitions in the graph", observed=[rn, len(parts)])
     known = rdivs[0] is not None
@@ -359,6 +377,8 @@ def generate(ctx):
         if rng.random() < 0.75:
             divs = U.rand_divisions(rng, nparts, 0, rng.choice([8, 14, 30]))
             keys = U.rand_truthful_parts(rng, divs, maxrows=rng.choice([2, 5]))
+            if rng.random() < 0.12:      # truthful, but some partitions not in index order (from_map with divisions)
+                keys = [rng.sample(k, len(k)) for k in keys]
         else:
             divs = None
             keys = [[rng.randint(0, 9) for _ in range(rng.choice([0, 1, 2, 5]))] for _ in range(nparts)]
